@@ -795,7 +795,7 @@ v("C04", "padding-int-uses-difference", "fire", I,
 v("C04", "padding-width-temp", "silent", I,
   "                    extra = (ANY,) * (len_b - 1)", "                    n_pad = len_b - 1\n                    extra = (ANY,) * n_pad")
 v("C04", "padding-prepend-commuted", "silent", I,
-  "trans_fn=lambda c: c + extra).__iter__(tick=False)\n\n                a_coord", "trans_fn=lambda c: c + (extra)).__iter__(tick=False)\n\n                a_coord")
+  "a = self.a_fiber.project(trans_fn=lambda c: c + extra,", "a = self.a_fiber.project(trans_fn=lambda c: c + (extra),")
 v("C05", "removal-disjuncts-swapped", "silent", I,
   """                if maybe_remove and (isinstance(a_payload, type(self.a_fiber)) and \\
                         len(a_payload) == 0) or \\
